@@ -337,7 +337,16 @@ class MonitoredFocusList(MonitoredList[_T], typing.Generic[_T]):
             return focus
 
         focus = self._focus
+        if step < 0:
+            # the same items are covered by an ascending range
+            if num_removed:
+                start, stop = start + (num_removed - 1) * step, start + 1
+            else:
+                stop = start
+            step = -step
         if step == 1:
+            # a reversed slice is an empty slice at start
+            stop = max(start, stop)
             if start + num_new_items <= focus < stop:
                 focus = stop
             # adjust for added/removed items
